@@ -952,7 +952,10 @@ impl<'a> PGen<'a> {
                         counter_maxed: false,
                     });
                     let mut inner = vec![];
-                    self.block(ch, depth + 1, &mut inner);
+                    // one loop in ten has no statements at all in its body
+                    if !ch.chance(1, 10) {
+                        self.block(ch, depth + 1, &mut inner);
+                    }
                     self.scope.pop();
                     out.push(Stmt::Loop(v, bound, inner));
                 }
@@ -1017,7 +1020,9 @@ impl<'a> PGen<'a> {
                 };
                 self.scope.frames.push(SFrame { vars: vec![], counter: None, tentative: true, counter_maxed: false });
                 let mut inner = vec![];
-                self.block(ch, depth + 1, &mut inner);
+                if !ch.chance(1, 6) {
+                    self.block(ch, depth + 1, &mut inner);
+                }
                 self.scope.pop();
                 out.push(Stmt::While(cond, inner));
             }
@@ -1194,6 +1199,10 @@ pub struct Feats {
     pub declares: usize,
     pub resets: usize,
     pub randoms: usize,
+    /// loops / whiles whose body holds no statement
+    pub empty_bodies: usize,
+    /// ... of which loops whose bound draws from `random`
+    pub empty_loop_random_bound: usize,
 }
 
 pub fn feats(b: &Built) -> Feats {
@@ -1256,6 +1265,14 @@ pub fn feats(b: &Built) -> Feats {
                 }
                 Stmt::Loop(v, b, inner) => {
                     f.loops += 1;
+                    if inner.is_empty() {
+                        f.empty_bodies += 1;
+                        let mut r = false;
+                        b.visit(&mut |e| r |= matches!(e, Expr::Random(_)));
+                        if r {
+                            f.empty_loop_random_bound += 1;
+                        }
+                    }
                     if in_while {
                         f.loop_in_while = true;
                     }
@@ -1276,6 +1293,9 @@ pub fn feats(b: &Built) -> Feats {
                 }
                 Stmt::While(_, inner) => {
                     f.whiles += 1;
+                    if inner.is_empty() {
+                        f.empty_bodies += 1;
+                    }
                     if in_loop {
                         f.while_in_loop = true;
                     }
